@@ -711,9 +711,9 @@ func runC02(c *Ctx) {
 		"at several instantiations) with the principal type known by construction; every subset of <= 6 annotations erased; " +
 		"non-trivial = at least one unannotated parameter or a generic result; distinct by source text of the fully annotated program"
 	c02CheckFoi(c)
-	nRand := c.Pick(110, 2000)
-	nShape := c.Pick(70, 1200)
-	nHazard := c.Pick(12, 100)
+	nRand := c.Pick(90, 2000)
+	nShape := c.Pick(60, 1200)
+	nHazard := c.Pick(10, 100)
 	c02MaxSites = c.Pick(4, 6) // quick: <= 2^4 variants per program, thorough: <= 2^6
 	var progs []*c02Prog
 	if c.Replay != "" {
@@ -790,7 +790,7 @@ func runC02(c *Ctx) {
 		}
 	}
 	// programs are checked in chunks; the build batch of a chunk runs while the next chunk is checked
-	bsize := c.Pick(96, 400)
+	bsize := c.Pick(80, 400)
 	var bwg sync.WaitGroup
 	nb := 0
 	for start := 0; start < len(progs); start += bsize {
@@ -839,7 +839,7 @@ func runC02(c *Ctx) {
 		}
 	}
 	// a sample of single programs as real fc processes: the in-process server must agree byte for byte
-	nproc := c.Pick(25, 150)
+	nproc := c.Pick(16, 150)
 	idx := rng.Perm(len(progs))
 	if nproc > len(idx) {
 		nproc = len(idx)
